@@ -254,6 +254,9 @@ type mount struct {
 	mod    api.Module
 	engine string
 	sysfs  experimentalsys.FS
+	ninst  int
+	cfgHow string
+	sib    string // an empty host directory for sibling configurations of mounts without a host directory
 }
 
 func (m *mount) snapshot() string {
@@ -277,14 +280,34 @@ func (m *mount) rebuild() {
 }
 
 func (m *mount) fsconfig() wazero.FSConfig {
+	var cfg wazero.FSConfig
 	switch m.kind {
 	case "ro":
-		return wazero.NewFSConfig().WithReadOnlyDirMount(m.dir, "/")
+		cfg = wazero.NewFSConfig().WithReadOnlyDirMount(m.dir, "/")
 	case "os":
-		return wazero.NewFSConfig().WithFSMount(os.DirFS(m.dir), "/")
+		cfg = wazero.NewFSConfig().WithFSMount(os.DirFS(m.dir), "/")
 	default:
-		return wazero.NewFSConfig().WithFSMount(m.mapfs, "/")
+		cfg = wazero.NewFSConfig().WithFSMount(m.mapfs, "/")
 	}
+	// The protection must not depend on what else was derived from the configuration: on two of every three
+	// instantiations a sibling configuration re-mounting the SAME guest path writable (same host directory where there
+	// is one) is derived from cfg and thrown away before cfg is used.
+	m.ninst++
+	m.cfgHow = "fresh"
+	if v := m.ninst % 3; v != 0 {
+		dir := m.dir
+		if dir == "" {
+			dir = m.sib
+		}
+		gp := []string{"/", "", "."}[(m.ninst/3)%3]
+		_ = cfg.WithDirMount(dir, gp)
+		m.cfgHow = fmt.Sprintf("cfg, after deriving (and discarding) cfg.WithDirMount(dir, %q)", gp)
+		if v == 2 {
+			_ = cfg.WithDirMount(dir, "/x").WithDirMount(dir, "/")
+			m.cfgHow += ` and cfg.WithDirMount(dir, "/x").WithDirMount(dir, "/")`
+		}
+	}
+	return cfg
 }
 
 // instantiate (re)creates the runtime and the proxy guest: a fresh descriptor table with the mount at fd 3.
@@ -310,6 +333,8 @@ func newMount(ctx context.Context, kind, root, engine string) *mount {
 	if kind == "map" {
 		m.mapfs = buildMap()
 		m.sysfs = &sysfs.AdaptFS{FS: m.mapfs}
+		m.sib = filepath.Join(root, "map_sibling_"+engine)
+		must(os.MkdirAll(m.sib, 0o755))
 	} else {
 		m.dir = filepath.Join(root, kind)
 		must(os.Mkdir(m.dir, 0o755))
@@ -776,6 +801,7 @@ type seqCase struct {
 	Kind   string  `json:"kind"`
 	Engine string  `json:"engine"`
 	Name   string  `json:"name"`
+	Config string  `json:"config"` // how the mount's configuration was obtained (see fsconfig)
 	Ops    [][]any `json:"ops"`
 	Obs    []obs   `json:"obs"`
 	Mut    []mut   `json:"mut"`
@@ -783,7 +809,7 @@ type seqCase struct {
 
 func (m *mount) runSeq(name string, ops [][]any) seqCase {
 	m.instantiate()
-	cs := seqCase{T: "seq", Kind: m.kind, Engine: m.engine, Name: name, Ops: ops, Mut: []mut{}}
+	cs := seqCase{T: "seq", Kind: m.kind, Engine: m.engine, Name: name, Config: m.cfgHow, Ops: ops, Mut: []mut{}}
 	for i, op := range ops {
 		cs.Obs = append(cs.Obs, m.exec(op))
 		if d := m.check(); d != "" {
